@@ -41,7 +41,7 @@ ASSUMPTIONS = ['F = 0.05 sd is an ABSOLUTE allowance (the one place an absolute 
                'cross-terms ignored by the bias model and the neglected terms of C04 leave a first-order, scale-independent remainder (calibration: <= 0.022 sd over 600 ladders) in '
                'this workload domain (time_step <= 0.5 s, IMU step 12.5 ms, horizon <= 40 s)']
 REQUIRED_OBS = ['transparent_with_small_capacity', 'sd_steps_decided', 'zero_data_sd_compared', 'transparent_runs', 'transparent_with_outside_samples', 'transparent_with_default_measurements', 'ladder_runs', 'ladders_decided',
-                'rerun_checks', 'scale_misal_ladders', 'two_d_ladders', 'ladders_with_two_epochs_in_one_imu_interval', 'ladders_with_roll_through_180']
+                'rerun_checks', 'scale_misal_ladders', 'two_d_ladders', 'ladders_with_two_epochs_in_one_imu_interval', 'ladders_with_roll_through_180', 'ladders_with_decimated_feedforward_trajectory']
 REQUIRED_CLASSES = {'all': ['transparent', 'ladder', 'rerun']}
 F_ALLOW = 0.05
 TERR = ['north', 'east', 'down', 'VN', 'VE', 'VD', 'roll', 'pitch', 'heading']
@@ -196,7 +196,10 @@ def ladder_config(seed):
     if clustered and len(sensors) < 2:
         sensors = sensors + [c for c in ('NedVelocity', 'Position') if c not in sensors][:1]
     inverted = bool(crng.random() < 0.3)
-    return dict(clustered=clustered, inverted=inverted, wa=wa, sm=sm, T=T, ts=ts, lla0=lla0, vm=vm.tolist(), va=va.tolist(), period=period, sensors=sensors,
+    decimate = int(crng.choice([1, 1, 2, 4]))
+    if decimate > 1:
+        clustered = False          # (between rows the feedforward filter interpolates the computed trajectory linearly: an unscaled error of its own)
+    return dict(clustered=clustered, inverted=inverted, decimate=decimate, wa=wa, sm=sm, T=T, ts=ts, lla0=lla0, vm=vm.tolist(), va=va.tolist(), period=period, sensors=sensors,
                 e_pos=(rng.uniform(-1, 1, 3)).tolist(), e_vel=(rng.uniform(-1, 1, 3)).tolist(), e_att=(rng.uniform(-1, 1, 3)).tolist(),
                 gb=(rng.uniform(-1, 1, 3) * 1e-4).tolist(), ab=(rng.uniform(-1, 1, 3) * 0.03).tolist(),
                 smat=(rng.uniform(-1, 1, (3, 3)) * 1e-3).tolist(), nseed=int(rng.integers(0, 2 ** 31)),
@@ -230,10 +233,11 @@ def ladder_run(cfg, s):
     for j, cls in enumerate(cfg['sensors']):
         every = (2.0 + j * 0.75) if not cfg.get('dense') else (0.3 + 0.2 * j)      # dense: fixes cut most covariance steps short
         e = np.arange(1.0 + 0.4 * j, t[-1] - 0.5, every)
-        base = t[np.searchsorted(t, e)]
+        tg = t[::int(cfg.get('decimate', 1))]
+        base = tg[np.clip(np.searchsorted(tg, e), 0, len(tg) - 2)]
         e = base
         off_j = DT * [0.37, 0.62, 0.18][j % 3]
-        if cfg['offgrid'] and not cfg.get('clustered'):
+        if cfg['offgrid'] and not cfg.get('clustered') and cfg.get('decimate', 1) == 1:
             e = e + DT * 0.37
         if cfg.get('clustered'):
             # unsynchronised receivers: each sensor has its own offset inside the IMU interval, and this sensor also reports in every other
@@ -277,7 +281,9 @@ def ladder_run(cfg, s):
     fb = filters.run_feedback_filter(init, pos_sd, vel_sd, lev_sd, az_sd, inc, g, a, measurements=meas, time_step=cfg['ts'], with_altitude=wa)
     I = strapdown.Integrator(init, wa)
     I.integrate(inc)
-    comp = I.trajectory
+    # the feedforward filter may be given the computed trajectory at a lower rate than the increments (every 2nd / 4th row): its rows are then
+    # not one-to-one with the increments rows
+    comp = I.trajectory.iloc[::int(cfg.get('decimate', 1))]
     g, a = models()
     ff = filters.run_feedforward_filter(comp, comp, pos_sd, vel_sd, lev_sd, az_sd, g, a, measurements=meas, increments=inc, time_step=cfg['ts'],
                                         with_altitude=wa)
@@ -307,6 +313,7 @@ def run_ladder(case, out, obs):
     obs['ladder_runs'] = len(res)
     obs['scale_misal_ladders'] = int(cfg['sm'])
     obs['two_d_ladders'] = int(not cfg['wa'])
+    obs['ladders_with_decimated_feedforward_trajectory'] = int(cfg.get('decimate', 1) > 1)
     obs['ladders_with_roll_through_180'] = int(bool(cfg.get('inverted')))
     obs['ladders_with_two_epochs_in_one_imu_interval'] = int(bool(cfg.get('clustered')))
     if cfg.get('clustered'):
